@@ -184,6 +184,27 @@ func TestVerifC02(t *testing.T) {
 		stream = append(append(stream, ref.B32(randScalar(rng))...), rng.Bytes(64)...)
 		cases = append(cases, &c02case{d: d, priv: ref.B32(d), e: rng.Bytes(32), stream: stream, chunk: 0, plan: "random", label: "long-rejection-run"})
 	}
+	// RELATIONS BETWEEN ARGUMENTS: the nonce candidate equals the private key, its negation, the digest, a
+	// neighbour of the key ...; the digest equals the key. The standard has no rule about any of them.
+	for i := 0; i < hk.N(12, 60); i++ {
+		d := keys[(i*11+3)%len(keys)]
+		e := rng.Bytes(32)
+		eI := ref.ModN(ref.Int(e))
+		rel := []*big.Int{new(big.Int).Set(d), ref.ModN(new(big.Int).Neg(d)), eI, ref.ModN(new(big.Int).Neg(eI)), new(big.Int).Add(d, bi(1)), new(big.Int).Sub(d, bi(1)),
+			ref.ModN(new(big.Int).Lsh(d, 1)), ref.ModN(new(big.Int).Sub(nm1, d)), ref.ModN(new(big.Int).Add(d, eI)), ref.InvN(new(big.Int).Add(d, bi(1)))}
+		names := []string{"k=d", "k=n-d", "k=e", "k=-e", "k=d+1", "k=d-1", "k=2d", "k=n-1-d", "k=d+e", "k=1/(1+d)"}
+		for j, k := range rel {
+			if k.Sign() <= 0 || k.Cmp(nI) >= 0 {
+				continue
+			}
+			ee := e
+			if (i+j)%4 == 0 {
+				ee = ref.B32(d) // and the digest is the key itself
+			}
+			stream := append(append(ref.B32(k), ref.B32(randScalar(rng))...), rng.Bytes(32*4)...)
+			cases = append(cases, &c02case{d: d, priv: ref.B32(d), e: ee, stream: stream, chunk: chunks[rng.Intn(len(chunks))], plan: "random", label: "relation:" + names[j]})
+		}
+	}
 	// (b) the rule matrix: 0..3 range rejects, then optionally one digest-dependent
 	// rule (r=0 | r+k=n | s=0), then valid candidates
 	nKeys := hk.N(5, 30)
